@@ -454,6 +454,7 @@ class Engine:
         self.counter = itertools.count()
         self.raise_log = []
         self.origin = {}      # term -> provenance record (for the abstract string domain, sa.strlang)
+        self.checks = {}      # id(node) -> [reached, failed, node, func]  (asserts, sequence indices) for E1's linear discharges
         self._pure = {}
         self._stable_global = {}
         self.sccs = None
@@ -692,11 +693,19 @@ class Engine:
         else:
             fr.raises.append((s, node, exc))
 
+    def _check(self, fr, node, failed):
+        c = self.checks.setdefault(id(node), [0, 0, node, fr.func])
+        c[0] += 1
+        if failed:
+            c[1] += 1
+
     def s_Assert(self, fr, st, s):
         out = []
         for s2, v in self.eval(fr, st.test, s):
             f = self.truth(v)
-            for s3 in assume(f_not(f), s2):
+            bad = assume(f_not(f), s2)
+            self._check(fr, st, bool(bad))
+            for s3 in bad:
                 self._raise(fr, st, "AssertionError", s3)
             out.extend(assume(f, s2))
         return out
@@ -1080,6 +1089,14 @@ class Engine:
     def e_Lambda(self, fr, e, s):
         return [(s, Unk(self.fresh("lambda")))]
 
+    def e_Yield(self, fr, e, s):
+        if e.value is None:
+            return [(s, Unk(self.fresh("sent")))]
+        return [(s2, Unk(self.fresh("sent"))) for s2, _ in self.eval(fr, e.value, s)]
+
+    def e_YieldFrom(self, fr, e, s):
+        return [(s2, Unk(self.fresh("sent"))) for s2, _ in self.eval(fr, e.value, s)]
+
     def e_IfExp(self, fr, e, s):
         out = []
         for s2, v in self.eval(fr, e.test, s):
@@ -1131,7 +1148,8 @@ class Engine:
             return v
         if isinstance(v, Con) and isinstance(v.value, bool):
             return Num(Lin.const(int(v.value)))
-        if isinstance(v, Con) and isinstance(v.value, float) and v.value == int(v.value):
+        if isinstance(v, Con) and isinstance(v.value, float) and v.value not in (float("inf"), float("-inf")) \
+                and v.value == v.value and v.value == int(v.value):
             return Num(Lin.const(int(v.value)))
         if isinstance(v, Unk):
             return Num(Lin.var(v.term))
@@ -1290,6 +1308,11 @@ class Engine:
         if isinstance(op, (ast.Eq, ast.NotEq)):
             f = self._eq(a, b, s)
             return f if isinstance(op, ast.Eq) else f_not(f)
+        inf = float("inf")
+        if isinstance(b, Con) and b.value == inf and isinstance(a, Num):
+            return isinstance(op, (ast.Lt, ast.LtE))
+        if isinstance(a, Con) and a.value == inf and isinstance(b, Num):
+            return isinstance(op, (ast.Gt, ast.GtE))
         na, nb = self.num(a, s), self.num(b, s)
         if na is None or nb is None:
             if isinstance(a, Con) and isinstance(b, Con):
@@ -1462,6 +1485,12 @@ class Engine:
                 self._raise(fr, e, "IndexError", s)
                 return []
             return [self._ranged(s, ("item", base.name, vkey(idx)), list(tgt))]
+        if isinstance(base, Unk) and isinstance(idx, Num):
+            # sequence index in bounds?  0 <= idx < len(base)  or  -len(base) <= idx < 0
+            ln = Lin.var(("len", vkey(base), 0))
+            ok = (s.entails(ge(idx.lin, 0)) and s.entails(lt(idx.lin, ln))) or \
+                 (s.entails(le(idx.lin, -1)) and s.entails(ge(idx.lin + ln, 0)))
+            self._check(fr, e, not ok)
         if fr.trys and isinstance(base, (Obj, Unk)):
             # an unmodelled container: the look-up may fail (only tracked where a handler can observe it)
             self._raise(fr, e, "KeyError", s)
